@@ -307,4 +307,6 @@ RULES = [
     Rule("C04.E3", rule_E3, floor=2, doc="nothing consumes randomness between reseed and first draw"),
     Rule("C04.E4", rule_E4, floor=4, doc="ownership of the configuration"),
     Rule("C04.E5", rule_E5, floor=2, doc="filters in order"),
+    Rule("C04.E12", lambda ctx: __import__("sa.mypyx", fromlist=["x"]).cross_check(ctx, [HELPER, GENERATE, f"{DS}.GPTDataset.from_config"], "C04.E12"), floor=1,
+         doc="thorough: call graph over-approximates mypy's type-resolved edges on the generation closure", tier="thorough"),
 ]
